@@ -937,8 +937,14 @@ func init() {
 	})
 	register(&SimProp{
 		ID: "C05",
-		Profiles: []*Profile{accessProfile("c05-call", map[string]int{"trigburst": 8, "call": 26, "new": 5, "httppost": 7, "auth": 4, "subscribe": 12, "mutate": 8},
-			map[string]int{"grant": 6, "calllist": 12, "callonly": 3, "deny": 2, "denied": 2, "err": 1, "timeout": 1})},
+		Profiles: []*Profile{func() *Profile {
+			p := accessProfile("c05-call", map[string]int{"trigburst": 8, "call": 26, "new": 5, "httppost": 7, "auth": 4, "subscribe": 12, "mutate": 8},
+				map[string]int{"grant": 6, "calllist": 12, "callonly": 3, "deny": 2, "denied": 2, "err": 1, "timeout": 1})
+			// a comma is a valid character of a method name: such a method is an
+			// entry of no list, also not of the list it spells
+			p.Methods = []string{"set", "get", "se", "sett", "new", "a", "set,get", "get,set", "a,set,b", "set,"}
+			return p
+		}()},
 		Config:   accessConfig,
 		Monitors: func() []Monitor { return []Monitor{NewMonC05()} },
 		Trigger:  triggerRevived,
